@@ -13,7 +13,7 @@ from . import brewlib, conflib, c02, c03
 ID = "C05"
 
 
-def _brew_once(ctx, cfg, B, D, sizes, chunk_pred, chunk_read, sched, suffix=".pin"):
+def _brew_once(ctx, cfg, B, D, sizes, chunk_pred, chunk_read, sched, suffix=".pin", memo=None, perm_log=None):
     import z3
     from symx import symnp, vfs, stubs, core
     from symx.core import SNum
@@ -26,6 +26,11 @@ def _brew_once(ctx, cfg, B, D, sizes, chunk_pred, chunk_read, sched, suffix=".pi
             ds.filename = newp
         dss.append(ds)
         syms.append(s)
+        if cfg.get("fixed_hash_order"):
+            # fold layout is C02's business: distinct spectra in a fixed hash order
+            for i in range(n - 1):
+                ctx.assume(z3.And(s["scan"][i] != s["scan"][i + 1],
+                                  brewlib.s_crc32(core.SKey((SNum(s["scan"][i]), SNum(s["mass"][i])))).z < brewlib.s_crc32(core.SKey((SNum(s["scan"][i + 1]), SNum(s["mass"][i + 1])))).z))
         if cfg.get("fixed_labels", True):
             # labels only decide between results and the documented no-target/no-decoy errors (C02 explores them)
             for i, z in enumerate(s["lab"]):
@@ -36,8 +41,15 @@ def _brew_once(ctx, cfg, B, D, sizes, chunk_pred, chunk_read, sched, suffix=".pi
     model = brewlib.StubModel(log, decision_function=False)
     B.update_labels = lambda fn, s_, tc, fdr: symnp.SArray([0] * len(s_), symnp.float64)
     try:
-        _, models, scores, descs = B.brew(dss, model=model, test_fdr=SNum(z3.Real("test_fdr")), folds=cfg["folds"], max_workers=2, rng=symnp.Generator("identity"))
-        return ("ok", [list(s.items) for s in scores], syms)
+        if cfg.get("cap"):
+            # the capped training subset is a random draw: the same seed in both runs (an uninterpreted
+            # function of (seed, call index), arbitrary at its first use)
+            gen = symnp.Generator("seeded", log=perm_log, memo=memo, seed=42)
+        else:
+            gen = symnp.Generator("identity")
+        _, models, scores, descs = B.brew(dss, model=model, test_fdr=SNum(z3.Real("test_fdr")), folds=cfg["folds"], max_workers=2, rng=gen, subset_max_train=cfg.get("cap"))
+        trained = sorted((m.fold, [(int(f), int(r)) for f, r in (m.trained_on or [])]) for m in models)
+        return ("ok", [list(s.items) for s in scores], syms, trained)
     except core.Unsupported:
         raise
     except Exception as ex:
@@ -58,12 +70,11 @@ def sym_brew(ctx, cfg):
     cp = int(ctx.fresh_int("chunk_prediction", 1, big)) if cfg["vary"] == "prediction" else big
     cr = int(ctx.fresh_int("chunk_read_all", 1, big)) if cfg["vary"] == "read" else big
     # labels only matter for the documented no-target/no-decoy errors: alternate
-    a = _brew_once(ctx, cfg, B, D, sizes, cp, cr, cfg.get("sched", False), cfg.get("suffix", ".pin"))
+    memo, perm_log = {}, []
+    a = _brew_once(ctx, cfg, B, D, sizes, cp, cr, cfg.get("sched", False), cfg.get("suffix", ".pin"), memo, perm_log)
     syms = a[2]
-    if cfg.get("fixed_labels", True):
-        pass
-    b = _brew_once(ctx, cfg, B, D, sizes, big, big, False, ".pin")
-    inputs = dict(files=brewlib.dataset_inputs(syms), folds=cfg["folds"], chunk_prediction=cp, chunk_read_all=cr, suffix=cfg.get("suffix", ".pin"),
+    b = _brew_once(ctx, cfg, B, D, sizes, big, big, False, ".pin", memo, [])
+    inputs = dict(files=brewlib.dataset_inputs(syms), folds=cfg["folds"], chunk_prediction=cp, chunk_read_all=cr, suffix=cfg.get("suffix", ".pin"), cap=cfg.get("cap"), perms=perm_log,
                   hashes=[[brewlib.s_crc32(core.SKey((core.SNum(s["scan"][i]), core.SNum(s["mass"][i])))) for i in range(s["n"])] for s in syms])
     props = []
     if a[0] != b[0]:
@@ -76,6 +87,8 @@ def sym_brew(ctx, cfg):
             props.append(("file%d_score_count" % fid, z3.BoolVal(len(x) == len(y))))
             for i, (u, v) in enumerate(zip(x, y)):
                 props.append(("file%d_row%d_same_score" % (fid, i), core._z(u) == core._z(v)))
+        # an estimator is a function of the training TABLE: the same rows in the same order
+        props.append(("every_fold_model_is_trained_on_the_same_rows_in_the_same_order: %s vs reference %s" % (a[3], b[3]), z3.BoolVal(a[3] == b[3])))
     return PathOutcome(props, inputs, None, note=a[0])
 
 
@@ -160,6 +173,7 @@ def harnesses(tier):
         addb("n=4,folds=2,prediction chunk", dict(sizes=[4], folds=2, vary="prediction"))
         addb("n=4,folds=2,read chunk,task order", dict(sizes=[4], folds=2, vary="read", sched=True))
         addb("n=4,folds=2,parquet vs text,prediction chunk", dict(sizes=[4], folds=2, vary="prediction", suffix=".parquet"))
+        addb("n=5,folds=2,training cap 2,read chunk,fixed fold layout", dict(sizes=[5], folds=2, vary="read", cap=2, fixed_hash_order=True))
         addc("n=3,dedup,confidence chunk", dict(n=3, dedup=True, vary="confidence"))
         addc("n=3,no dedup,confidence+merge chunk", dict(n=3, dedup=False, vary="both"))
         addc("n=3,dedup,parquet vs text", dict(n=3, dedup=True, vary="confidence", suffix=".parquet"))
@@ -198,8 +212,9 @@ def real_brew_rel(cfg, inp):
         old = (B.CHUNK_SIZE_ROWS_PREDICTION, B.CHUNK_SIZE_READ_ALL_DATA)
         B.CHUNK_SIZE_ROWS_PREDICTION, B.CHUNK_SIZE_READ_ALL_DATA = cp, cr
         try:
-            _, models, scores, descs = mokapot.brew(dss, model=c02._RealModel({}, False), test_fdr=1.0, folds=folds, max_workers=workers, rng=c02.scripted_rng([]))
-            return ("ok", [np.asarray(s, dtype=float).tolist() for s in scores])
+            _, models, scores, descs = mokapot.brew(dss, model=c02._RealModel({}, False), test_fdr=1.0, folds=folds, max_workers=workers, rng=c02.scripted_rng(inp.get("perms") or []),
+                                                    subset_max_train=inp.get("cap"))
+            return ("ok", [np.asarray(s, dtype=float).tolist() for s in scores], sorted((m.fold, list(m.trained_on or [])) for m in models))
         except Exception as ex:
             return ("exc", "%s: %s" % (type(ex).__name__, ex))
         finally:
@@ -211,6 +226,9 @@ def real_brew_rel(cfg, inp):
         return dict(violation="with prediction chunk %s / read chunk %s (%s) the run gives %s, the reference run gives %s" % (inp["chunk_prediction"], inp["chunk_read_all"], inp.get("suffix"), a, b))
     if a[0] == "ok" and a[1] != b[1]:
         return dict(violation="scores differ: %s vs reference %s" % (a[1], b[1]))
+    if a[0] == "ok" and a[2] != b[2]:
+        return dict(violation="with read chunk %s (training cap %s) the fold models are fitted on %s, in the reference run on %s: same rows, another order - an estimator is a function of the table it is given"
+                              % (inp["chunk_read_all"], inp.get("cap"), a[2], b[2]))
     return dict(outputs=None, violation=None)
 
 
